@@ -66,3 +66,7 @@ def append_bad(log, x):
 def default_bad(x, seen=[]):
     seen.insert(0, x)
     return len(seen)
+
+
+def bytes_vs_str(b):
+    return b != ""
